@@ -1025,7 +1025,10 @@ class RTCPeerConnection(AsyncIOEventEmitter):
             oldTransports = set()
             slaveMids = bundle.items[1:]
             for transceiver in self.__transceivers:
-                if transceiver.mid in slaveMids and not transceiver._bundled:
+                if transceiver.mid in slaveMids and (
+                    not transceiver._bundled
+                    or transceiver.receiver.transport is not primaryTransport
+                ):
                     oldTransports.add(transceiver.receiver.transport)
                     transceiver.receiver.setTransport(primaryTransport)
                     transceiver.sender.setTransport(primaryTransport)
